@@ -157,6 +157,7 @@ struct mdspan {
         )
     [[nodiscard]] constexpr auto operator()(OtherIndexTypes... indices) const -> reference
     {
+        TETL_PRECONDITION(is_index_in_extents(extents_type::index_cast(indices)...));
         auto const idx = static_cast<etl::size_t>(_map(extents_type::index_cast(etl::move(indices))...));
         return _acc.access(_ptr, idx);
     }
@@ -211,6 +212,15 @@ struct mdspan {
     [[nodiscard]] static constexpr auto is_always_strided() -> bool { return mapping_type::is_always_strided(); }
 
 private:
+    /// [mdspan.overview]: 0 <= indices[r] < extent(r) for every rank index r. A negative index
+    /// becomes a large value of the unsigned size_type.
+    template <typename... Indices>
+    [[nodiscard]] constexpr auto is_index_in_extents(Indices... indices) const noexcept -> bool
+    {
+        [[maybe_unused]] auto r = rank_type{0};
+        return ((static_cast<size_type>(indices) < static_cast<size_type>(extents().extent(r++))) and ...);
+    }
+
     TETL_NO_UNIQUE_ADDRESS data_handle_type _ptr; // NOLINT(modernize-use-default-member-init)
     TETL_NO_UNIQUE_ADDRESS mapping_type _map;     // NOLINT(modernize-use-default-member-init)
     TETL_NO_UNIQUE_ADDRESS accessor_type _acc;    // NOLINT(modernize-use-default-member-init)
